@@ -25,6 +25,15 @@ CASES = {
                   {'world': W3(), 'ops': [EV(DBL(14)), EV(['assign', 'y', ['call', 'split', [['name', 'st'], ['str', 'a']], 'plain']])]}),
 }
 
+C04W = {'names': {'e': {'d': '1E+50'}}}
+for _f in ('int', 'floor', 'ceil', 'round'):
+    CASES['C04-%s-decimal-exponent' % _f] = (
+        'C04', {'kind': 'number_blowup', 'site': 'builtin:' + _f, 'cause': 'decimal_positive_exponent'},
+        {'world': C04W, 'ops': [{'kind': 'builtin', 'op': _f, 'op_': 'eval', 'style': 0,
+                                 'prog': ['assign', 'r', ['call', _f, [['name', 'e']], 'plain']]}]})
+
+CASES['C05-compile-unbounded'] = ('C05', {'kind': 'compile_unbounded'}, {'real_compile_probe': '(?:a{3000}){3000}', 'limit_s': 2.0})
+
 
 def main():
     extra = {}
